@@ -151,6 +151,14 @@ def gen_case(rng, tier):
 _LINE = re.compile(r"^\s*'(.*)'\s*$")
 
 
+def _join(path):
+    """the library's own path spelling (NodePath.join_path): [i] for ints, dotted names otherwise (also for names that are not identifier-like)"""
+    out = ''
+    for c in path:
+        out += f'[{c}]' if isinstance(c, int) and not isinstance(c, bool) else ('.' if out else '') + str(c)
+    return out
+
+
 def listed_paths(e):
     for x in util.exc_chain(e):
         s = str(x)
@@ -197,7 +205,7 @@ def run(case):
         got = lib.outcome(lambda: Config(mo[1]))
         _counts['evaluate_node_calls_seen'] += mon.counts['evaluate_node']
         if surv:
-            want = sorted(gen.path_str(p) or repr(p) for p in surv)
+            want = sorted(_join(p) for p in surv)
             if got[0] == 'ok':
                 vio.append({'mech': 'builds-with-surviving-placeholder', 'what': f'placeholders survive at {want} but the build succeeded: {util.short(c05._plain(got[1]), 200)}; texts={texts!r}'})
             else:
